@@ -101,7 +101,7 @@ func NewWorld(tape *kernel.Tape, mode simdisk.Mode, out *kernel.Outcome) *World 
 	rand.Seed(int64(tape.Seed))
 	w.Sched = kernel.NewSched(w.Sc, 400)
 	w.Disk = simdisk.NewDisk(mode, w.Sched)
-	w.RootURI = storage.MustParseURI("file:///simlake")
+	w.RootURI = w.Disk.Root()
 	return w
 }
 
@@ -134,6 +134,9 @@ func (w *World) Create(ctx context.Context, h *simdisk.Handle) (*Client, error) 
 // Open gives a new client (cold caches) on the current disk state.
 func (w *World) Open(ctx context.Context, name string, yield bool) (*Client, error) {
 	h := w.Disk.NewHandle(name, yield)
+	// The observer only looks: it must not leave snapshot files behind or
+	// repair a lagging HEAD on the clients' behalf.
+	h.ReadOnly = name == "observer"
 	return w.OpenOn(ctx, h)
 }
 
